@@ -1521,7 +1521,7 @@ def pretty_float(value, ctx):
     elif math.isnan(value):
         return pretty_call_alt(ctx, constructor, args=('nan', ))
 
-    doc = annotate(Token.NUMBER_FLOAT, repr(value))
+    doc = annotate(Token.NUMBER_FLOAT, float.__repr__(value))
     if constructor is float:
         return doc
 
@@ -1534,7 +1534,7 @@ def pretty_int(value, ctx):
     if ctx.depth_left == 0:
         return pretty_call_alt(ctx, constructor, args=(..., ))
 
-    doc = annotate(Token.NUMBER_INT, repr(value))
+    doc = annotate(Token.NUMBER_INT, int.__repr__(value))
     if constructor is int:
         return doc
 
@@ -1604,7 +1604,12 @@ def determine_quote_strategy(s):
 
 
 def escape_str_for_quote(use_quote, s):
-    escaped_with_quotes = repr(s)
+    # Subclasses may override __repr__; we need the literal of the
+    # underlying str/bytes value.
+    if isinstance(s, str):
+        escaped_with_quotes = str.__repr__(s)
+    else:
+        escaped_with_quotes = bytes.__repr__(s)
     repr_used_quote = escaped_with_quotes[-1]
 
     # string may have a prefix
